@@ -14,6 +14,7 @@ Structure of the claim
           digest equals the digest of a fresh object with the current content.
 O4 and O5 compare against a *fresh object of the library itself* so that each defect is reported by exactly one group.
 """
+import re
 import hashlib
 
 from symx import core, loader, shims
@@ -74,7 +75,14 @@ G_X = bytes.fromhex("79be667ef9dcbbac55a06295ce870b07029bfcdb2dce28d959f2815b16f
 ONE_INT = 1 << 248  # uint256(1) = 01 00 .. 00, read big-endian as the library does with every digest
 ALG_OF_KIND = {"p2pkh": "legacy", "p2sh": "legacy", "p2wpkh": "bip143", "p2sh-p2wpkh": "bip143", "p2wsh": "bip143",
                "p2sh-p2wsh": "bip143", "p2tr": "bip341"}
-TVARS = ("sign", "key", "key+annex", "script", "script+annex", "script0", "script0+annex")
+TVARS = ("sign", "key", "key+annex", "script", "script+annex", "script0", "script0+annex",
+         # annexes whose length looks like that of other witness elements: 1 byte, 33 bytes (a depth-0 control block), 65 (depth 1), 64 (a signature)
+         "key+annex1", "key+annex33", "script+annex33", "script0+annex65", "key+annex64")
+
+
+def annex_len(tvar):
+    m = re.search(r"\+annex(\d*)$", tvar)
+    return None if not m else int(m.group(1) or 3)
 
 
 # ---------------------------------------------------------------------------------------- specification
@@ -370,7 +378,8 @@ def mk_tap_witness(g, p, tvar):
     start with 0x50 (otherwise it *is* an annex and the stack has the other shape)"""
     if tvar == "sign":
         return []
-    annex = [b"\x50" + g.sb(p + ".annex", 2)] if tvar.endswith("+annex") else []
+    al = annex_len(tvar)
+    annex = [] if al is None else [b"\x50" + g.sb(p + ".annex", al - 1) if al > 1 else b"\x50"]
     base = tvar.split("+")[0]
     if base == "key":
         return [g.sb(p + ".sig", 2)] + annex
@@ -559,7 +568,7 @@ def _direct_path(kind, n_in, n_out, hts, tvar, holder):
     ext = _ext_of(tvar) if alg == "bip341" else None
     meta = {"algorithm": alg, "kind": kind, "n_in": n_in, "n_out": n_out, "input_index": idx,
             "path": ("script" if ext else "key") if alg == "bip341" else None, "ext_flag": ext,
-            "annex": tvar.endswith("+annex") if alg == "bip341" else None, "witness_shape": tvar if alg == "bip341" else None}
+            "annex": (annex_len(tvar) is not None) if alg == "bip341" else None, "witness_shape": tvar if alg == "bip341" else None}
 
     def wit(env):
         w = dict(meta, hash_type=conc_value(ht, env), content=_js(conc_value(c, env)))
@@ -1078,30 +1087,30 @@ def obligations(tier):
     outs = tuple(range(0, 4) if q else range(0, 7))
     obs = []
     for n_in in ins:
-        obs.append(Ob("O1-legacy", ob_legacy, {"n_in": n_in, "n_outs": outs}, replay="direct", budget_s=1500))
-        obs.append(Ob("O2-bip143", ob_bip143, {"n_in": n_in, "n_outs": outs}, replay="direct", budget_s=1500))
+        obs.append(Ob("O1-legacy", ob_legacy, {"n_in": n_in, "n_outs": outs}, replay="direct", budget_s=(600 if q else 1500)))
+        obs.append(Ob("O2-bip143", ob_bip143, {"n_in": n_in, "n_outs": outs}, replay="direct", budget_s=(600 if q else 1500)))
         for part in ((outs[:2], outs[2:]) if q else tuple((o,) for o in outs)):
-            obs.append(Ob("O3-bip341", ob_bip341, {"n_in": n_in, "n_outs": part}, replay="direct", budget_s=1500))
+            obs.append(Ob("O3-bip341", ob_bip341, {"n_in": n_in, "n_outs": part}, replay="direct", budget_s=(600 if q else 1500)))
     for n_in in (ins if q else range(1, 5)):
         for part in ((outs[:2], outs[2:]) if q else ((0, 1), (2, 3), (4,))):
-            obs.append(Ob("O4-dispatch", ob_dispatch, {"n_in": n_in, "n_outs": part}, replay="dispatch", budget_s=1500))
+            obs.append(Ob("O4-dispatch", ob_dispatch, {"n_in": n_in, "n_outs": part}, replay="dispatch", budget_s=(600 if q else 1500)))
     shapes_a = ((2, 2),) if q else ((1, 0), (2, 2), (3, 3))
     b_in = range(1, 4) if q else range(1, 5)
     b_out = range(0, 4) if q else range(0, 5)
     small = tuple(e for e in EDITS if e not in ("outs_replace", "ins_replace", "replace_all"))
     for sa in shapes_a:
-        obs.append(Ob("O5-history-step", ob_history_step, {"alg": "legacy", "edits": small, "shape_a": sa}, replay="history", budget_s=1500))
+        obs.append(Ob("O5-history-step", ob_history_step, {"alg": "legacy", "edits": small, "shape_a": sa}, replay="history", budget_s=(600 if q else 1500)))
         obs.append(Ob("O5-history-step", ob_history_step, {"alg": "legacy", "edits": ("outs_replace", "ins_replace", "replace_all"), "shape_a": sa,
-                                                            "shapes_b": tuple((bi, bo) for bi in b_in for bo in b_out)}, replay="history", budget_s=1500))
+                                                            "shapes_b": tuple((bi, bo) for bi in b_in for bo in b_out)}, replay="history", budget_s=(600 if q else 1500)))
         for alg in ("bip143", "bip341"):
             for grp in (EDITS_OUT[:4], EDITS_IN[:5], EDITS_OTHER[:3]):
-                obs.append(Ob("O5-history-step", ob_history_step, {"alg": alg, "edits": grp, "shape_a": sa}, replay="history", budget_s=1500))
+                obs.append(Ob("O5-history-step", ob_history_step, {"alg": alg, "edits": grp, "shape_a": sa}, replay="history", budget_s=(600 if q else 1500)))
             obs.append(Ob("O5-history-step", ob_history_step, {"alg": alg, "edits": ("outs_replace",), "shape_a": sa,
-                                                                "shapes_b": tuple((sa[0], bo) for bo in b_out)}, replay="history", budget_s=1500))
+                                                                "shapes_b": tuple((sa[0], bo) for bo in b_out)}, replay="history", budget_s=(600 if q else 1500)))
             obs.append(Ob("O5-history-step", ob_history_step, {"alg": alg, "edits": ("ins_replace",), "shape_a": sa,
-                                                                "shapes_b": tuple((bi, sa[1]) for bi in b_in)}, replay="history", budget_s=1500))
+                                                                "shapes_b": tuple((bi, sa[1]) for bi in b_in)}, replay="history", budget_s=(600 if q else 1500)))
             for bi in b_in:
                 obs.append(Ob("O5-history-step", ob_history_step, {"alg": alg, "edits": ("replace_all",), "shape_a": sa,
-                                                                    "shapes_b": tuple((bi, bo) for bo in b_out)}, replay="history", budget_s=1500))
-    obs.append(Ob("O5-history-sequences", ob_history_sequences, replay="history", budget_s=1500))
+                                                                    "shapes_b": tuple((bi, bo) for bo in b_out)}, replay="history", budget_s=(600 if q else 1500)))
+    obs.append(Ob("O5-history-sequences", ob_history_sequences, replay="history", budget_s=(600 if q else 1500)))
     return obs
